@@ -260,7 +260,9 @@ def run(tier, seed, rep):
     seeds = SEEDS if thorough else [SEEDS[0], SEEDS[1], SEEDS[4], SEEDS[5]]
     for text in seeds:
         for first in names:
-            seconds = names if thorough else rnd.sample(names, 10)
+            # (the whole-number seed, added last, is paired with a sample in both tiers: the thorough tier holds ~440 k events
+            # in memory as it is - about 9 GB in the driver process)
+            seconds = names if thorough and text != SEEDS[6] else rnd.sample(names, 10)
             for second in seconds:
                 jobs.append((text, [first, second], f"h{hid}"))
                 hid += 1
